@@ -5,6 +5,7 @@ R6.2 tracking mode -> selector -> state set
 R6.3 CPU mux wiring (select = running-thread channel, input gindex = that thread's channel i)
 R6.4 mux protocol (cb_select / cb_input) and bay_propagate phase order
 R6.5 the CPU muxes' select (running-thread channel) is the unique running thread or null
+R6.6 that select is recomputed after every change of a thread's state or CPU (C05 R5.1's instances)
 """
 import json
 import os
@@ -45,7 +46,27 @@ def run(ctx):
              "the gindex of the running thread when exactly one thread of the CPU is running and to null when none "
              "or several are (evaluated on every list of 0..2 threads in every state, physical and virtual CPUs), so "
              "a CPU row shows the unique running thread's value and nothing / the default otherwise")
+    ctx.rule("R6.6", "the select is refreshed whenever it can change: every accepted thread state or affinity change "
+             "is followed by a recount (cpu_update) of each CPU involved, and cpu_add/remove/migrate_thread recount "
+             "after changing the list (the instances of C05 R5.1, on which the CPU half of view consistency rests)")
     RUN, ACT, ANY = E("TRACK_TH_RUN"), E("TRACK_TH_ACT"), E("TRACK_TH_ANY")
+
+    # ---- R6.6 ----------------------------------------------------------------
+    from rules import C05 as _c05
+    from ovsa.engine import Ctx as _Ctx
+    sub = _Ctx("C05", prog, ctx.root, "quick")
+    _c05.run(sub)
+    n66 = 0
+    for i_ in sub.instances:
+        if i_["rule"] != "R5.1":
+            continue
+        n66 += 1
+        if i_["ok"]:
+            ctx.ok("R6.6", "recount:" + i_["inst"], i_["where"])
+        else:
+            ctx.fail("R6.6", "recount:" + i_["inst"], i_["where"], i_["what"] + " (the CPU's running-thread channel, "
+                     "select of its multiplexers, keeps a stale thread)")
+    ctx.need(n66 >= 20, "R6.6: only %d recount instances" % n66)
 
     # ---- R6.5 ----------------------------------------------------------------
     from rules.C05 import cpu_update_cases
